@@ -167,6 +167,19 @@ def run_op_case(ctx, i):
         ctx.check(ctx.close(out1, exp1, TOL), "image.random", expected=exp1, got=out1, image=full, **W)
         out2 = _np(conv.convolve_image(image=aa.Array2D(values=garbage.copy(), mask=mask), blurring_image=aa.Array2D(values=garbage.copy(), mask=bmask)))
         ctx.check(np.array_equal(out1, out2), "garbage", why="values outside mask U blurring region changed the result", got=out2, expected=out1, **W)
+        # the storage format of the arguments is the caller's business: native-stored image and / or blurring image (store_native=True,
+        # or the .native view) give the same convolution
+        for si, sb in ((True, False), (False, True), (True, True)):
+            okS, outS = ctx.guarded("image.storage_format", lambda: _np(conv.convolve_image(
+                image=aa.Array2D(values=full.copy(), mask=mask, store_native=si),
+                blurring_image=(aa.Array2D(values=full.copy(), mask=bmask).native if sb else aa.Array2D(values=full.copy(), mask=bmask)))))
+            if okS:
+                ctx.check(outS.shape == exp1.shape and ctx.close(outS, exp1, TOL), "image.storage_format", image_native=si, blurring_image_native=sb,
+                          expected=exp1, got=outS, **W)
+        okS, outS = ctx.guarded("image.storage_format", lambda: _np(conv.convolve_image_no_blurring(image=aa.Array2D(values=full.copy(), mask=mask, store_native=True))))
+        if okS:
+            ctx.check(outS.shape == (n,) and ctx.close(outS, C_mm @ full[~m], TOL), "image.storage_format", which="no_blurring", image_native=True,
+                      expected=C_mm @ full[~m], got=outS, **W)
     if not nb:
         # empty blurring region (1x1 kernel): convolve_image with the (empty) blurring image of the library's own blurring mask is
         # still the true convolution, kernel[0, 0] * image
